@@ -50,11 +50,11 @@ def add_death(M, d):
         M.create_death_event(d["type"], dict(d["params"]), d["prop"][0], dict(d["prop"][1]))
 
 
-def base_lineage_model(ls):
+def base_lineage_model(ls, reactions=True):
     from bioscrape.lineage import LineageModel
     base = ls["base"]
     return LineageModel(species=list(base["species"]),
-                        reactions=[specmod.reaction_tuple(rx) for rx in base["reactions"]],
+                        reactions=[specmod.reaction_tuple(rx) for rx in base["reactions"]] if reactions else [],
                         parameters=[(k, v) for k, v in base["params"].items()],
                         rules=[specmod.rule_tuple(r) for r in base.get("rules", [])],
                         initial_condition_dict=dict(base["x0"]), initialize_model=False)
